@@ -14,12 +14,14 @@
 package main
 
 import (
+	"bytes"
 	"context"
 	"encoding/json"
 	"flag"
 	"fmt"
 	"math/rand"
 	"os"
+	"os/exec"
 	"time"
 
 	"github.com/paulmach/osm"
@@ -75,6 +77,7 @@ type Lay struct {
 	Runs    int    `json:"runs"`          // R
 	OptAll  bool   `json:"optall"`        // pass every option explicitly (else only the non-default ones)
 	SameID  bool   `json:"sameid"`        // all children share one id number (only when their types differ)
+	NoThr   bool   `json:"nothr"`         // commit regime only: leave the Threshold option out (thresholds do not apply there)
 	Late    bool   `json:"late"`          // timestamp regime: no commit info although every timestamp is after CommitInfoStart
 }
 
@@ -82,6 +85,7 @@ type Case struct {
 	H   Hist     `json:"h"`
 	O   Opt      `json:"o"`
 	Kt  []string `json:"kt"` // child types "n" | "w" | "r"
+	Zv  []int    `json:"zv"` // per child: the version located exactly at (0, 0); 0 = none
 	Lay Lay      `json:"lay"`
 }
 
@@ -114,6 +118,17 @@ type Run struct {
 type Got struct {
 	Runs []Run     `json:"runs"`
 	App  [][][]Ann `json:"app"` // parent -> t -> position
+}
+
+// Seq is a call history: the cases are annotated one after the other in one process.
+type Seq struct {
+	Steps []Case `json:"steps"`
+}
+
+type SeqRec struct {
+	Case  json.RawMessage `json:"case"`
+	Got   []Got           `json:"got"`
+	Crash bool            `json:"crash"`
 }
 
 type Rec struct {
@@ -211,8 +226,19 @@ func (s *sym) id(k int) int64 {
 }
 func (s *sym) version(v int) int         { return s.c.Lay.VOff + s.c.Lay.VStep*v }
 func (s *sym) cs(cs int) osm.ChangesetID { return osm.ChangesetID(s.c.Lay.CsBase + int64(cs)) }
-func (s *sym) lat(k, v int) float64      { return float64(k) + float64(v)/64 }
-func (s *sym) lon(k, v int) float64      { return -(float64(v) + float64(k)/64) }
+func (s *sym) atOrigin(k, v int) bool    { return k-1 < len(s.c.Zv) && s.c.Zv[k-1] == v }
+func (s *sym) lat(k, v int) float64 {
+	if s.atOrigin(k, v) {
+		return 0
+	}
+	return float64(k) + float64(v)/64
+}
+func (s *sym) lon(k, v int) float64 {
+	if s.atOrigin(k, v) {
+		return 0
+	}
+	return -(float64(v) + float64(k)/64)
+}
 
 func (s *sym) absVersion(k, ver int) int {
 	if ver == 0 {
@@ -355,7 +381,10 @@ func (s *sym) options() []annotate.Option {
 	o := s.c.O
 	var opts []annotate.Option
 	thr := time.Duration(o.Eps*s.c.Lay.Unit) * time.Second
-	if s.c.Lay.OptAll || thr != 30*time.Minute { // 30 minutes is the documented default
+	switch {
+	case s.c.Lay.NoThr && !s.c.Lay.OptAll && o.Regime == "commit":
+		// no Threshold option at all
+	case s.c.Lay.OptAll || thr != 30*time.Minute: // 30 minutes is the documented default
 		opts = append(opts, annotate.Threshold(thr))
 	}
 	if s.c.Lay.OptAll || o.IgI {
@@ -672,7 +701,43 @@ func main() {
 	kids := flag.Int("kids", 10, "children (for -random)")
 	vers := flag.Int("vers", 6, "versions per child (for -random)")
 	pars := flag.Int("pars", 4, "parent versions (for -random)")
+	seq := flag.Bool("seq", false, "stdin lines are call sequences {steps:[case...]}: each is run in its own child process")
+	seqChild := flag.Bool("seqchild", false, "(internal) run the one sequence on stdin, call after call, in this process")
 	flag.Parse()
+
+	if *seqChild {
+		// one process = one call history; a single P and no GC so that nothing but the calls
+		// themselves (and Go's map iteration order) decides what a later call sees
+		lines := vio.ReadLines()
+		var sq Seq
+		vio.Must(json.Unmarshal(lines[0], &sq), "sequence")
+		gots := make([]Got, 0, len(sq.Steps))
+		for i := range sq.Steps {
+			gots = append(gots, runCase(&sq.Steps[i]))
+		}
+		vio.Must(json.NewEncoder(os.Stdout).Encode(gots), "encode")
+		return
+	}
+
+	if *seq {
+		self, err := os.Executable()
+		vio.Must(err, "executable")
+		vio.Map(vio.ReadLines(), 0, func(i int, line []byte) interface{} {
+			ctx, cancel := context.WithTimeout(context.Background(), 60*time.Second)
+			defer cancel()
+			cmd := exec.CommandContext(ctx, self, "-seqchild")
+			cmd.Env = append(os.Environ(), "GOMAXPROCS=1", "GOGC=off")
+			cmd.Stdin = bytes.NewReader(append(append([]byte(nil), line...), '\n'))
+			out, err := cmd.Output()
+			rec := SeqRec{Case: line, Got: []Got{}}
+			if err != nil || json.Unmarshal(out, &rec.Got) != nil {
+				// a panic inside the library (or a hang) is an observation, not a harness failure
+				rec.Crash, rec.Got = true, []Got{}
+			}
+			return rec
+		})
+		return
+	}
 
 	if *nRandom > 0 {
 		rng := rand.New(rand.NewSource(*seed))
